@@ -266,6 +266,29 @@ pub fn api_on<T: Send>(hop: bool, label: L, f: impl FnOnce() -> T + Send) -> Res
     }
 }
 
+thread_local! {
+    static SOFT_PANICS: Cell<u64> = const { Cell::new(0) };
+}
+
+/// Panics of shadow instances answered with a default so far on this thread (see `api_soft`).
+pub fn soft_panics() -> u64 {
+    SOFT_PANICS.with(|c| c.get())
+}
+
+/// Like `api`, for `feed`/`poll` of a shadow instance: a panic is noted (the run loop turns the
+/// note into C18.panic) and answered with `default` - what the caller of a caught panic is left
+/// with - so that the run goes on and the other properties get their say as well.
+#[inline]
+pub fn api_soft<T>(label: L, default: T, f: impl FnOnce() -> T) -> Result<T, Panicked> {
+    match api(label, f) {
+        Ok(v) => Ok(v),
+        Err(_) => {
+            SOFT_PANICS.with(|c| c.set(c.get() + 1));
+            Ok(default)
+        }
+    }
+}
+
 /// Runs `f`, which is expected to panic (documented panic site). Allocations made by the panic
 /// machinery itself are not counted.
 pub fn api_expect_panic<T>(label: L, f: impl FnOnce() -> T) -> Result<T, ()> {
